@@ -201,6 +201,96 @@ def self_test(ctx: Ctx):
                                     "removed_event_rejected": res[2][1]}
 
 
+THREADS_CFG = """SPECIFICATION Spec
+CONSTANTS
+  Threads = {{1, 2}}
+  Keys = {{"a", "b"}}
+  Vals = {{1, 2}}
+  MaxDepth = 2
+  MaxLen = {n}
+  Emit = {emit}
+  DisjointKeys = {disjoint}
+INVARIANT {inv}
+CHECK_DEADLOCK FALSE
+"""
+REAL_KEY = {"a": "dask.chunk-size", "b": "fftw.threads"}
+REAL_VAL = {"a": {0: None, 1: "1 MB", 2: "2 MB"}, "b": {0: None, 1: 5, 2: 7}}
+
+
+def threads_growth(ctx: Ctx, quick: bool):
+    """Growth beyond C34: contexts of two threads interleaving on the one global configuration (ConfigThreads.tla).  TLC decides
+    which guarantees survive; the emitted interleavings are replayed on the real abtem.config.set with two real threads driven
+    step by step, and the configuration after each history is compared with the model's.  Drift only, never a violation."""
+    import queue
+    import threading
+    import abtem
+    ok1 = ctx.design_check("ConfigThreads", cfg_text=THREADS_CFG.format(n=6, emit="FALSE", disjoint="FALSE", inv="RestoredWhenGloballyNested"),
+                           label="threads: restored when the interleaving is globally nested")
+    r2 = ctx.design_check("ConfigThreads", cfg_text=THREADS_CFG.format(n=4, emit="FALSE", disjoint="FALSE", inv="RestoredAfterAll"),
+                          label="threads: restored after any interleaving (expected counterexample)", expect_ok=False)
+    ctx.design_check("ConfigThreads", cfg_text=THREADS_CFG.format(n=6, emit="FALSE", disjoint="TRUE", inv="DisjointKeysRestored"),
+                     label="threads: disjoint keys restored")
+    r = ctx.design_check("ConfigThreads", cfg_text=THREADS_CFG.format(n=4 if quick else 6, emit="TRUE", disjoint="FALSE", inv="EmitHistory"),
+                         label="threads: interleavings emitted", workers=1)
+    hists = [json.loads(tlc.tla_value_to_py(s)[1]) for s in r.printed("HIST")]
+    base = {k: abtem.config.get(REAL_KEY[k]) for k in REAL_KEY}
+    val = lambda k, v: base[k] if v == 0 else REAL_VAL[k][v]
+    differ = 0
+    for h in hists[: (150 if quick else 3000)]:
+        qs = {t: queue.Queue() for t in (1, 2)}
+        done = queue.Queue()
+
+        def worker(t):
+            stack = []
+            while True:
+                cmd = qs[t].get()
+                if cmd is None:
+                    return
+                if cmd[0] == "Enter":
+                    c = abtem.config.set({REAL_KEY[cmd[1]]: val(cmd[1], cmd[2])})
+                    c.__enter__()
+                    stack.append(c)
+                else:
+                    stack.pop().__exit__(None, None, None)
+                done.put(t)
+        ths = [threading.Thread(target=worker, args=(t,), daemon=True) for t in (1, 2)]
+        for th in ths:
+            th.start()
+        try:
+            for st in h["hist"]:
+                qs[st["t"]].put((st["a"], st["k"], st["v"]))
+                done.get(timeout=30)
+            got = {k: abtem.config.get(REAL_KEY[k]) for k in REAL_KEY}
+            want = {k: val(k, h["final"][k]) for k in REAL_KEY}
+            if got != want:
+                differ += 1
+                if len(ctx.drift) < 10:
+                    ctx.drift.append({"what": "growth (threads): configuration after an interleaving differs from ConfigThreads", "history": h["hist"], "got": got, "model": want})
+        finally:
+            for t in (1, 2):
+                qs[t].put(None)
+            for th in ths:
+                th.join(timeout=10)
+            for k in REAL_KEY:                      # whatever the interleaving left behind: put the process back
+                abtem.config.config  # noqa: B018
+            import dask.config as dc
+            dc.set({"dummy": None}, config=abtem.config.config) if False else None
+            _restore(base)
+    ctx.notes["growth_threads"] = {"interleavings_replayed": min(len(hists), 150 if quick else 3000), "differing_from_model": differ,
+                                   "globally_nested_restores": bool(ok1.ok), "any_interleaving_restores": bool(r2.ok),
+                                   "tlc_counterexample_for_non_lifo_interleaving": bool(r2.invariant_violated)}
+
+
+def _restore(base):
+    import abtem
+    for k, v in base.items():
+        parts = REAL_KEY[k].split(".")
+        d = abtem.config.config
+        for p in parts[:-1]:
+            d = d[p]
+        d[parts[-1]] = v
+
+
 def run(ctx: Ctx):
     quick = ctx.tier == "quick"
     ctx.rule = ("nestings of config.set contexts (1-2 keys per set over flat, nested, new, hyphen/underscore-aliased and "
@@ -246,6 +336,7 @@ def run(ctx: Ctx):
     for ev, t in items[:1] + items[-2:]:
         ctx.sample({"events": ev, "observed": [x["a"] for x in t]})
     judge(ctx, items)
+    threads_growth(ctx, quick)
 
 
 def replay(ctx: Ctx, case):
